@@ -79,3 +79,41 @@ def classify(line, impl):
     if "!!!%20decoding" in impl: return "err:" + impl.rsplit("<err:", 1)[-1].split(":")[0].rstrip(">")
     if "!!!" in impl: return "not-closed"
     return "ok" + ("/float" if "<f" in impl else "") + ("/indef" if "_" in impl else "")
+
+
+# ---- the cbor-display command line tool (minicbor/src/bin/cbor-display.rs): the same display, fed from stdin or from a file ----
+import os, subprocess, tempfile
+_CLI = {}
+
+def prepare(tier, rng, root, cache):
+    """build the cbor-display binary from /repo's working tree (target dir under the cache)"""
+    env = dict(os.environ, CARGO_NET_OFFLINE="true", CARGO_TARGET_DIR=os.path.join(cache, "cli-target"))
+    p = subprocess.run("timeout 1500 cargo build --offline -p minicbor --bin cbor-display --features std,half 2>&1 | tail -20", shell=True, cwd="/repo", env=env,
+                       stdout=subprocess.PIPE, stderr=subprocess.STDOUT)
+    b = os.path.join(cache, "cli-target", "debug", "cbor-display")
+    if not os.path.exists(b) or b"Finished" not in p.stdout: return False, "cbor-display does not build: " + p.stdout.decode(errors="replace")[-600:], {}
+    _CLI["bin"] = b
+    return True, "cbor-display built", {}
+
+def _notation_bytes(b): return "h'" + " ".join("%02x" % x for x in b) + "'"
+
+def cross_check(cases, impl_out, model_out):
+    """stdin mode, `-` mode and --file mode of the tool print the documented notation of the whole input, whatever its size"""
+    b = _CLI.get("bin")
+    if not b: return []
+    bad = []
+    for n in (3, 70000, 400000, 700000):          # total input sizes 12 B .. 2.1 MB (beyond any plausible read chunk of 64 KiB / 1 MiB)
+        parts = [bytes((i * 5 + k) & 0xff for i in range(n)) for k in range(3)]
+        inp = b"\x83" + b"".join(head(2, n) + p for p in parts)
+        want = "[" + ", ".join(_notation_bytes(p) for p in parts) + "]\n"
+        with tempfile.NamedTemporaryFile(delete=False) as f: f.write(inp); path = f.name
+        try:
+            for mode, args, stdin in (("stdin", [], inp), ("-", ["-"], inp), ("--file", ["-f", path], None)):
+                try: r = subprocess.run([b] + args, input=stdin, stdout=subprocess.PIPE, stderr=subprocess.PIPE, timeout=120)
+                except subprocess.TimeoutExpired: bad.append(("CLI %s %d" % (mode, len(inp)), "cbor-display did not finish within 120 s")); continue
+                got = r.stdout.decode(errors="replace")
+                if r.returncode != 0 or got != want:
+                    bad.append(("CLI %s %d" % (mode, len(inp)), "cbor-display (%s mode) on %d input bytes: exit %d, %d characters of output, %d expected (the notation of the whole item)" % (mode, len(inp), r.returncode, len(got), len(want))))
+        finally:
+            os.unlink(path)
+    return bad
